@@ -443,6 +443,15 @@ fn sets(acc: &mut Acc) {
     check_eq!(acc, "WeekdaySet::from_array", set_bits(WeekdaySet::from_array([Weekday::Sun, Weekday::Mon, Weekday::Sun])), 0b1000001u8, "WeekdaySet::from_array([Sun, Mon, Sun])".to_string());
     check_eq!(acc, "WeekdaySet::from_array", set_bits(WeekdaySet::from_array(WD)), 127u8, "WeekdaySet::from_array(all)".to_string());
     check_eq!(acc, "WeekdaySet::from_array", set_bits(WeekdaySet::from_array::<0>([])), 0u8, "WeekdaySet::from_array([])".to_string());
+    // long iterators collected into a set: the new day comes last, after 2^8 / 2^16 repeats
+    for last in 0..7usize {
+        for n in [254usize, 255, 256, 257, 65_535, 65_536, 65_537] {
+            let other = WD[(last + 3) % 7];
+            let got: WeekdaySet = std::iter::repeat(other).take(n).chain(std::iter::once(WD[last])).collect();
+            let want = 1u8 << last | 1 << ((last + 3) % 7);
+            check_eq!(acc, "WeekdaySet::from_iter", set_bits(got), want, format!("{} x {:?} then {:?}, collected", n, other, WD[last]));
+        }
+    }
     // every array of 1..=9 weekdays (with repeats, any order), and long arrays whose new day comes last
     from_array_all::<1>(acc);
     from_array_all::<2>(acc);
